@@ -131,7 +131,60 @@ def scenario(e, cfg):
         return dict(ft=ft, p=p, kind=kind, rejected=rejected_p)
 
 
+DTYPES = ["bool", "int8", "uint8", "int16", "uint16", "int32", "uint32", "int64", "uint64", "float16", "float32", "float64",
+          "str", "bytes"]
+
+
+def declaration_case(ft, dtype):
+    """A well-typed write for an attribute DECLARED with `dtype`: either the format refuses it at write time, or the
+    dataset stays decodable (finite fork over declarations the format supports and those it does not)."""
+    from sedpack.io import Attribute, Dataset
+    shape = () if dtype in ("str", "bytes") else (2,)
+    if dtype == "str":
+        vals = ["héllo", ""]
+    elif dtype == "bytes":
+        vals = [b"ab\x00c", b""]
+    else:
+        vals = [np.array([1, 0], dtype), np.array([0, 1], dtype)]
+    with common.scratch_dir("vt18d_") as tmp:
+        try:
+            d = fillerlab.make_dataset(tmp / "ds", ft=ft, eps=2, attrs=[Attribute(name="x", dtype=dtype, shape=shape),
+                                                                          Attribute(name="a", dtype="int32", shape=(2,))])
+            with d.filler() as f:
+                for i, v in enumerate(vals):
+                    f.write_example(values={"x": v, "a": np.array([i, i], np.int32)}, split="train")
+        except Exception as exc:  # noqa: BLE001
+            return dict(outcome="rejected", how=type(exc).__name__)
+        try:
+            got = list(Dataset(d.path).as_numpy_iterator(split="train", repeat=False, shuffle=0))
+        except Exception as exc:  # noqa: BLE001
+            return dict(outcome="undecodable", how=f"{type(exc).__name__}: {str(exc)[:80]}")
+        return dict(outcome="ok" if len(got) == len(vals) else "undecodable", how=f"{len(got)} examples")
+
+
+def _decl_cell(cell):
+    from ..symx import Stats
+    common.import_sedpack(need_tf=(cell["ft"] == "tfrec"))
+    st = Stats()
+    for dt in DTYPES:
+        r = declaration_case(cell["ft"], dt)
+        st.paths += 1
+        st.proves += 1
+        if r["outcome"] == "undecodable":
+            st.cex.append(dict(msg=f"{cell['ft']}: an attribute declared {dt} accepts well-typed writes but the dataset is then "
+                                   f"undecodable ({r['how']})", model={},
+                               info=dict(kind=f"declared-dtype-accepted-but-undecodable:{cell['ft']}:{dt}", ft=cell["ft"], decl=dt)))
+        else:
+            st.proved += 1
+            st.concrete_proves += 1
+            if len(st.samples) < 3:
+                st.samples.append(dict(format=cell["ft"], declared=dt, **r))
+    return st
+
+
 def _cell(cell):
+    if cell.get("declarations"):
+        return _decl_cell(cell)
     return explore(lambda e: scenario(e, cell))
 
 
@@ -141,12 +194,13 @@ def cells(tier):
         out.append(dict(ft=ft, n=3, md=True))
         if tier == "thorough":
             out.append(dict(ft=ft, n=4, md=False))
+        out.append(dict(ft=ft, declarations=True))
     return out
 
 
 def run(tier, seed):
     cs = cells(tier)
-    common.import_sedpack(need_tf=any(c["ft"] == "tfrec" for c in cs))
+    common.import_sedpack(need_tf=False)
     # split each cell by the violation kind for parallelism
     st, per_cell, errors = par.run_cells(_cell, cs)
     viols, seen = [], set()
@@ -157,6 +211,9 @@ def run(tier, seed):
         if sig in seen:
             continue
         seen.add(sig)
+        if "decl" in info:
+            viols.append(Violation(sig, c["msg"], dict(declaration=info["decl"], ft=info["ft"])))
+            continue
         viols.append(Violation(sig, f"{c['msg']} (model {c['model']})", dict(model=c["model"], cfg=dict(
             ft=info.get("ft", c["msg"].split(":")[0]), n=max(3, 1 + int(c["model"].get("bad_position", 0))),
             md=any(k.startswith("md") for k in c["model"])))))
@@ -180,6 +237,10 @@ def run(tier, seed):
 
 
 def replay(case):
+    if "declaration" in case:
+        common.import_sedpack(need_tf=(case["ft"] == "tfrec"))
+        r = declaration_case(case["ft"], case["declaration"])
+        return r["outcome"] == "undecodable", str(r)
     try:
         scenario(ConcreteEngine(case["model"]), case["cfg"])
     except CexFound as c:
